@@ -38,8 +38,11 @@ def _fix(s):
 
 
 def run_supervised(sup, argv, cwd, prefix, rules=None, seed=None, hold_permille=0, hold_maxms=0,
-                   timeout_ms=30000, env=None, tag="t", umask=None, fd9=None, nofile=None, cpus=None):
-    """rules: list of (action, p1, p2, sys, nth, path)"""
+                   timeout_ms=30000, env=None, tag="t", umask=None, fd9=None, nofile=None, cpus=None,
+                   during=None, during_delay=0.5):
+    """rules: list of (action, p1, p2, sys, nth, path).  during: a callable the ENVIRONMENT runs `during_delay` seconds
+    after the program was started (another process renaming / removing / rewriting files while the copy is under way;
+    combine with a `hold` rule that keeps the program at a known point for longer than the delay)"""
     tdir = os.path.join(cwd, ".sup")
     os.makedirs(tdir, exist_ok=True)
     tpath = os.path.join(tdir, tag + ".trace")
@@ -68,12 +71,21 @@ def run_supervised(sup, argv, cwd, prefix, rules=None, seed=None, hold_permille=
             resource.setrlimit(resource.RLIMIT_NOFILE, (nofile, nofile))
         if cpus:
             os.sched_setaffinity(0, cpus)
+    timer = None
+    if during is not None:
+        import threading
+        timer = threading.Timer(during_delay, during)
+        timer.start()
     try:
         r = subprocess.run(cmd, cwd=cwd, capture_output=True, env=e, timeout=timeout_ms / 1000.0 + 30, preexec_fn=pre,
                            close_fds=(fd9 is None))
         code, so, se = r.returncode, r.stdout, r.stderr
     except subprocess.TimeoutExpired as ex:
         code, so, se = 124, ex.stdout or b"", ex.stderr or b""
+    finally:
+        if timer is not None:
+            timer.cancel()
+            timer.join()
     if code == 99 and se.startswith(b"sup:"):
         # the supervisor rejected its own input: a harness problem, never a verdict about xcp
         raise core.BuildError("supervisor error: %s (rules %r)" % (se.decode("utf-8", "replace").strip(), rules))
